@@ -4,8 +4,8 @@ E1 history explorer.  A cell is one ORIGINAL object (a joint or a factor of the 
 special: Lognormal, RegularizedGaussian, RegularizedGMRF, forward models) in one value catalogue.  Inside the
 cell every sequence of operations up to the depth bound is executed, each operation applied to the original or
 to ANY object derived earlier in the same history (the pool): condition on a subset (keyword), condition on
-nothing (the Gibbs ``target()`` copy), to_likelihood, model(dist), one Gibbs sweep of each Gibbs sampler, and
-``reads`` = all read-only operations (get_parameter_names, get_conditioning_variables, logd, gradient,
+nothing (the Gibbs ``target()`` copy), to_likelihood, model(dist), two Gibbs sweeps of each Gibbs sampler, three Metropolis-Hastings steps (both interfaces) on
+a Posterior / MultipleLikelihoodPosterior, and ``reads`` = all read-only operations (get_parameter_names, get_conditioning_variables, logd, gradient,
 sample(rng) / model forward + gradient) with arguments different from those of the fingerprint.  In addition
 EVERY read-only operation is executed on EVERY live object after EVERY step - that is what taking the
 fingerprints does - so each history interleaves the read operations with all other operations.
@@ -29,7 +29,7 @@ from checks import _graphs as GR
 
 PROPERTY = "C11"
 RULE = ("cells = original object (every joint and every factor of graphs G1..G10, 8 specials) x value catalogue x "
-        "depth; inside a cell all sequences of {cond(S), call0, to_likelihood, model(dist), gibbs_new, gibbs_old, reads} "
+        "depth; inside a cell all sequences of {cond(S), call0, to_likelihood, model(dist), gibbs_new, gibbs_old, mh_new, mh_old, reads} "
         "up to the depth are executed on the original and on every pool member derived so far; all read-only operations "
         "(names, conditioning variables, attributes, logd x2, gradient, seeded draw) run on every live object after every "
         "step; after every step the fingerprints of the original, the tracked factors/helpers and all "
@@ -41,8 +41,9 @@ BOUND = {
              "depth 3 for the joints G3 and G9 (3 variables), depth 2 for the other joints; "
              "1 value catalogue (seed%3); conditioning alphabet = all non-empty subsets of the target's parameters "
              "(<=3 parameters) or singletons + full set (>=4); horizon run: 200 alternating re-conditionings of G1",
-    "thorough": "depth 4 for factors with <=2 parameters and specials, depth 3 for factors with 3+ parameters and for all "
-                "joints; 3 value catalogues; horizon run: 2000 alternating "
+    "thorough": "3 value catalogues at depth 3 for every factor and special; joints at depth 3 in catalogue 0 (G3, G9 in all "
+                "catalogues) and depth 2 otherwise; in addition depth 4 for factors with <=2 "
+                "parameters and for the specials in catalogue 0; horizon run: 2000 alternating "
                 "re-conditionings of G1, G2 and G9 posteriors (the Gibbs pattern)",
 }
 ASSUMPTIONS = [
@@ -77,7 +78,7 @@ def cells(tier, seed):
         for gid in JOINTS:
             g = GR.GRAPHS[gid]
             nv = len(g.free)
-            depth = (3 if gid in ("G3", "G9") else 2) if q else 3
+            depth = 3 if (gid in ("G3", "G9") or (not q and k == cats[0])) else 2
             out.append({"kind": "joint", "graph": gid, "cat": k, "depth": depth})
         for gid in JOINTS:
             g = GR.GRAPHS[gid]
@@ -88,10 +89,10 @@ def cells(tier, seed):
                     # (G1.y is kept at depth 3); the repeats are explored to depth 2 here and to depth 3 in thorough
                     d = 2 if (npar >= 3 and (gid, name) in QUICK_SHALLOW) else 3
                 else:
-                    d = 3 if npar >= 3 else 4
+                    d = 3 if (npar >= 3 or k != cats[0]) else 4
                 out.append({"kind": "factor", "graph": gid, "name": name, "cat": k, "depth": d})
         for sp in SPECIALS:
-            out.append({"kind": "special", "name": sp, "cat": k, "depth": 3 if q else 4})
+            out.append({"kind": "special", "name": sp, "cat": k, "depth": 3 if (q or k != cats[0]) else 4})
     if q:
         out.append({"kind": "horizon", "graph": "G1", "cat": cats[0], "n": 200})
     else:
@@ -383,6 +384,9 @@ def ops_for(w, i):
     ops.append(("call0", i, None))
     for S in cond_subsets(known):
         ops.append(("cond", i, S))
+    if isinstance(obj, (cuqi.distribution.Posterior, cuqi.distribution.MultipleLikelihoodPosterior)) and len(names) == 1 and len(known) == 1:
+        ops.append(("mh_new", i, None))      # a sampler run on a conditioned copy (both interfaces)
+        ops.append(("mh_old", i, None))
     if kd == "joint" and set(names) == GIBBS_VARS and w.graph is not None and w.graph.gid in ("G1", "G2", "G7"):
         ops.append(("gibbs_new", i, None))
         ops.append(("gibbs_old", i, None))
@@ -435,6 +439,16 @@ def do_op(w, op):
             return "cond", obj(**{n: GR.copy_val(v[n]) for n in arg})
         if name == "apply":
             return "apply", obj(w.objs[arg])
+        if name == "mh_new":
+            with SavedRNG(4):
+                _s = cuqi.experimental.mcmc.MH(obj, scale=0.1, initial_point=np.atleast_1d(GR.copy_val(v[obj.get_parameter_names()[0]])))
+                _s.sample(3)
+            return "mh_new", None
+        if name == "mh_old":
+            with SavedRNG(4):
+                _s = cuqi.sampler.MH(obj, scale=0.1, x0=np.atleast_1d(GR.copy_val(v[obj.get_parameter_names()[0]])))
+                _s.sample(3)
+            return "mh_old", None
         if name == "gibbs_new":
             M = cuqi.experimental.mcmc
             with SavedRNG(3):
@@ -614,7 +628,7 @@ class Explorer:
                 res.count("alterations_detected")
                 if t is not None:
                     # shorten: drop the non-creating operations before the offending step if it still reproduces
-                    hmin = [o for o in h2[:t] if o[0] not in ("reads", "gibbs_new", "gibbs_old")] + [h2[t]]
+                    hmin = [o for o in h2[:t] if o[0] not in ("reads", "gibbs_new", "gibbs_old", "mh_new", "mh_old")] + [h2[t]]
                     if len(hmin) < t + 1:
                         w3, t3, bad3 = self.replay(hmin)
                         if t3 == len(hmin) - 1 and [b[:2] for b in bad3[:2]] == [b[:2] for b in bad2[:2]]:
@@ -652,7 +666,11 @@ def horizon(res, cell):
     w = World({"kind": "joint", "graph": g.gid, "cat": k})
     fp0 = [fingerprint(_o, w) for _o in w.objs]
     data = [n for n in g.free if n.startswith("y")]
-    _post = w.objs[0](**{n: GR.copy_val(w.vals[n]) for n in data})
+    try:
+        _post = w.objs[0](**{n: GR.copy_val(w.vals[n]) for n in data})
+    except Exception as e:  # noqa
+        res.fail("C11|JointDistribution|recondition-horizon|raises", "[horizon %s] conditioning on the data raised %r" % (g.gid, e))
+        return
     w.add(_post, "pool", 0)
     fpp = fingerprint(_post, w)
     free = [n for n in g.free if n not in data]
@@ -664,9 +682,15 @@ def horizon(res, cell):
         src = w.vals if it % 2 == 0 else w.valsB
         for n in free:
             others = {m: GR.copy_val(cur[m]) for m in free if m != n}
-            _c = _post(**others)
             res.transitions += 1
-            val = float(np.asarray(_c.logd(GR.copy_val(cur[n]))).ravel()[0])
+            try:
+                _c = _post(**others)
+                val = float(np.asarray(_c.logd(GR.copy_val(cur[n]))).ravel()[0])
+            except Exception as e:  # noqa  the very same call worked (or was never tried) in an earlier sweep
+                res.fail("C11|JointDistribution|recondition-horizon|raises",
+                         "[%s] re-conditioning on %s and evaluating at %s raised %s: %s in sweep %d"
+                         % (label, sorted(others), n, type(e).__name__, str(e)[:160], it))
+                return
             key = (n, np.asarray(cur[n], float).tobytes(), tuple(sorted((m, np.asarray(others[m], float).tobytes()) for m in others)))
             res.evaluations += 1
             if key in first:
